@@ -34,6 +34,11 @@ EXT_TEXT = (" In addition the translated functions of rand_xoshiro / rand_xorshi
 EXT_NOTE = ("; for the translated functions the tie is a kernel-checked theorem about definitions generated by the translator "
             "tools/rs2lean.py (trusted, cross-checked by an independent interpreter tools/symexec.py); z3 is used only to search for "
             "failing inputs and to recognise behaviour-preserving rewrites, never as a proof obligation")
+EXT_JITTER = {"C05", "C12", "C13", "C14", "C16"}
+EXT_JITTER_TEXT = (" For rand_jitter all of JitterRng's logic (random_loop_cnt … test_timer, Clone, next_u32/next_u64/fill_bytes) is regenerated "
+                   "from /repo's current source as definitions in the timer monad (tools/rs2lean_tm.py) and proved equal to the model for all "
+                   "inputs and all timer scripts (ExtTie.JitterRng.*; C14: the census of partial operations equals what Checked.Jitter accounts for); "
+                   "abstractions (black_box, dead-code elimination, scratch-memory check, skipped log macros) in DESIGN.md §3b Extension.")
 def main():
     checks = []
     for pid, (text, tech) in sorted(T.items()):
@@ -49,6 +54,11 @@ def main():
             text += EXT_TEXT
             tech += " + translator-regenerated correspondence theorems (rs2lean)"
             note = NOTE + EXT_NOTE
+        if pid in EXT_JITTER:
+            text += EXT_JITTER_TEXT
+            if pid not in EXT:
+                tech += " + translator-regenerated correspondence theorems (rs2lean_tm)"
+                note = NOTE + EXT_NOTE
         checks.append(dict(property_id=pid, quick_cmd=f"python3 tools/check.py {pid} --tier quick",
             thorough_cmd=f"python3 tools/check.py {pid} --tier thorough", evidence_file=f"evidence/{pid}.json",
             replay_cmd_template=f"python3 tools/check.py {pid} --replay {{path}}", engine="lean-proof+tie",
